@@ -449,6 +449,24 @@ def gen(repo):
         raise TranslatorError("is_start_field: not a matches! over literals")
     sfl = re.findall(r'"([^"]*)"', m.group(1))
     emit("Definition start_fields : list bytes := [" + "; ".join(coq_bytes(rust_str(x)) for x in sfl) + "].")
+    # handle_start_field: the key that opens a song, the keys skipped while no song is in progress,
+    # and the name reported in the unexpected-field error
+    hs = norm(body_of(ss, r"fn handle_start_field\(&mut self, key: &str, value: String\) -> Result<\(\), TypedResponseError>\s*\{", "handle_start_field"))
+    m = re.fullmatch(r'matchkey\{"([^"]*)"=>self\.url=value,((?:"[^"]*"\|?)+)=>\(\),other=>returnErr\(TypedResponseError::unexpected_field\("([^"]*)",other\)\),?\}Ok\(\(\)\)', hs)
+    if not m:
+        raise TranslatorError("handle_start_field: not the shape `match key { \"file\" => self.url = value, \"a\" | \"b\" => (), other => return Err(unexpected_field(..)) } Ok(())`")
+    emit(f"Definition song_url_key : bytes := {coq_bytes(rust_str(m.group(1)))}.")
+    emit("Definition start_skip_fields : list bytes := [" + "; ".join(coq_bytes(rust_str(x)) for x in re.findall(r'"([^"]*)"', m.group(2))) + "].")
+    emit(f"Definition start_expected_name : bytes := {coq_bytes(rust_str(m.group(3)))}.")
+    # handle_song_field: literal keys of the attribute match (everything else is a tag)
+    hf = body_of(ss, r"fn handle_song_field\(\s*&mut self,\s*key: &str,\s*value: String,?\s*\) -> Result<Option<SongInQueue>, TypedResponseError>\s*\{", "handle_song_field")
+    if "if is_start_field(key)" not in hf:
+        raise TranslatorError("handle_song_field: the is_start_field test is gone")
+    mk = body_of(hf, r"match key\s*\{", "handle_song_field match")
+    akeys = re.findall(r'^\s*"([^"]*)"\s*=>', mk, re.M)
+    if not akeys or not re.search(r"^\s*tag\s*=>", mk, re.M) or re.search(r'"\s*\|\s*"', mk):
+        raise TranslatorError("handle_song_field: attribute match has changed shape")
+    emit("Definition song_attr_keys : list bytes := [" + "; ".join(coq_bytes(rust_str(x)) for x in akeys) + "].")
 
     # ------------------------------------------------------------ responses/mod.rs enum spellings
     rs = strip_comments(read(repo, "mpd_client/src/responses/mod.rs"))
